@@ -150,6 +150,10 @@ fn cell_lattice(cell: &Cell, base: &[u64]) -> Vec<u64> {
     l
 }
 
+fn sym_is_fatal(_rng: &VRng) -> bool {
+    false
+}
+
 pub fn run_c03(ctx: &Ctx) {
     let cells = c03_cells(ctx);
     let base_lat = lattice();
@@ -215,6 +219,39 @@ pub fn run_c03(ctx: &Ctx) {
                 }
             }
         }
+        // ordinary random streams: rare-but-ordinary branches (rejection tails, region boundaries) at volume
+        let m_rand: u64 = if ctx.thorough() { 2_000_000 } else { 100_000 };
+        let seedr = hseed(&[ctx.seed, cell.hash64(), 0xAAD]);
+        let mut rng = VRng::from_env(seedr);
+        let mut reported = false;
+        for i in 0..m_rand {
+            rng.begin_call();
+            let r = catch(|| s.sample_v(&mut rng));
+            evals += 1;
+            let viol = match r {
+                Err(msg) => Some((if msg.starts_with("WORD_BUDGET") { "word_budget".to_string() } else { "panic".to_string() }, format!("{}: panic: {}", cell.key(), msg.lines().next().unwrap_or("")))),
+                Ok(v) => check_val(cell, &v),
+            };
+            if let Some((sym, msg)) = viol {
+                if !reported {
+                    // replay: same seed, i+1 calls
+                    ctx.violation(Violation {
+                        property: ctx.property.clone(),
+                        family: cell.fam.name(),
+                        float: ft_name(cell),
+                        symptom: sym,
+                        trigger: "random".into(),
+                        what: format!("{msg} (call {i} of the random stream with seed {seedr})"),
+                        case: json!({"kind": "stream_random", "cell": cell, "seed": seedr, "calls": i + 1}),
+                    });
+                    reported = true;
+                }
+                if sym_is_fatal(&rng) {
+                    break;
+                }
+            }
+        }
+        ctx.class("random_stream_calls", m_rand);
         ctx.eval(evals);
         ctx.nontrivial_add(nontriv);
         ctx.class(&format!("cells:{}", cell.fam.name()), 1);
@@ -303,6 +340,31 @@ pub fn sweep_f32(ctx: &Ctx) {
 }
 
 pub fn replay(ctx: &Ctx, case: &Value) -> bool {
+    if case["kind"] == "stream_random" {
+        let cell: Cell = match serde_json::from_value(case["cell"].clone()) {
+            Ok(c) => c,
+            Err(_) => return false,
+        };
+        let (seed, calls) = (case["seed"].as_u64().unwrap_or(0), case["calls"].as_u64().unwrap_or(1));
+        if let Ok(s) = build(&cell) {
+            let mut rng = VRng::from_env(seed);
+            for i in 0..calls {
+                rng.begin_call();
+                let r = catch(|| s.sample_v(&mut rng));
+                let viol = match r {
+                    Err(msg) => Some(("panic".to_string(), format!("{}: panic: {}", cell.key(), msg.lines().next().unwrap_or("")))),
+                    Ok(v) => check_val(&cell, &v),
+                };
+                if let Some((sym, msg)) = viol {
+                    ctx.violation(Violation { property: ctx.property.clone(), family: cell.fam.name(), float: ft_name(&cell), symptom: sym, trigger: "random".into(), what: format!("{msg} (call {i})"), case: case.clone() });
+                    break;
+                }
+            }
+            ctx.eval(calls);
+            return true;
+        }
+        return false;
+    }
     let sc: StreamCase = match serde_json::from_value(case["stream"].clone()) {
         Ok(c) => c,
         Err(_) => return false,
